@@ -37,7 +37,12 @@ static std::string g_ledger_err;
 static size_t g_live = 0;
 static void ledger_err(const std::string& e) { if (g_ledger_err.empty()) g_ledger_err = e; }
 
-extern "C" void* __wrap_malloc(size_t n)
+// allocation answers: the k-th allocation request (malloc, calloc or realloc) made by the property functions since the counter was reset fails
+static long g_alloc_calls = 0, g_fail_at = -1; static bool g_alloc_failed = false;
+static bool alloc_gate() { if (!g_track) return false; if (g_alloc_calls++ == g_fail_at) { g_alloc_failed = true; return true; } return false; }
+static void* raw_malloc(size_t n);
+extern "C" void* __wrap_malloc(size_t n) { if (alloc_gate()) return nullptr; return raw_malloc(n); }
+static void* raw_malloc(size_t n)
 {
     if (g_track && n > (1u << 24)) { // a length read from released (poisoned) memory
         ledger_err("allocation of an absurd size requested: a length was read from memory that had already been released");
@@ -49,6 +54,7 @@ extern "C" void* __wrap_malloc(size_t n)
 }
 extern "C" void* __wrap_calloc(size_t a, size_t b)
 {
+    if (alloc_gate()) return nullptr;
     void* p = __real_calloc(a, b ? b : 1);
     if (g_track) { LEDGER[p] = { a * b, true }; ++g_live; }
     return p;
@@ -67,11 +73,12 @@ extern "C" void __wrap_free(void* p)
 extern "C" void* __wrap_realloc(void* p, size_t n)
 {
     if (!g_track) return __real_realloc(p, n);
-    if (!p) return __wrap_malloc(n);
+    if (alloc_gate()) return nullptr; // the old block stays valid and owned by the caller
+    if (!p) return raw_malloc(n);
     auto it = LEDGER.find(p);
-    if (it == LEDGER.end()) { ledger_err("realloc of a pointer that was never allocated by the property functions"); return __wrap_malloc(n); }
-    if (!it->second.live) { ledger_err("realloc of an allocation that was already released"); return __wrap_malloc(n); }
-    void* q = __wrap_malloc(n);
+    if (it == LEDGER.end()) { ledger_err("realloc of a pointer that was never allocated by the property functions"); return raw_malloc(n); }
+    if (!it->second.live) { ledger_err("realloc of an allocation that was already released"); return raw_malloc(n); }
+    void* q = raw_malloc(n);
     memcpy(q, p, std::min(n, it->second.n));
     __wrap_free(p);
     return q;
@@ -307,6 +314,76 @@ static Verdict apply_unguarded(World& w, Op op)
     return compare(w, false);
 }
 
+// ---- allocation failures: one allocation request of the last call fails.  What the call then returns and which values the objects
+// hold is not judged (the property does not say); judged is what it promises for ANY sequence: every stored string keeps a live buffer of
+// its own that is NUL-terminated at its recorded length (or is unset), nothing is shared or released twice, nothing crashes, and destroying
+// every object afterwards leaves no allocation behind.
+static Verdict weak_string(const char* what, int o, const String& s, std::set<const void*>& blocks)
+{
+    char d[256];
+    if (!s.str) { if (s.nbytes) { snprintf(d, sizeof d, "%c.%s: str is NULL but the recorded length is %zu bytes", ON[o], what, s.nbytes); return bad("alloc-failure:string-lost", d); } return {}; }
+    auto it = LEDGER.upper_bound((void*)s.str);
+    bool inside = false;
+    if (it != LEDGER.begin()) { --it; inside = (char*)it->first <= s.str && s.str + s.nbytes <= (char*)it->first + it->second.n && it->second.live; }
+    if (!inside) { snprintf(d, sizeof d, "%c.%s (%zu bytes) does not lie in a live allocation of its own", ON[o], what, s.nbytes); return bad("alloc-failure:string-not-owned", d); }
+    if (s.nbytes && s.str[s.nbytes - 1] != '\0') { snprintf(d, sizeof d, "%c.%s is not NUL-terminated at its recorded length %zu", ON[o], what, s.nbytes); return bad("alloc-failure:string-not-terminated", d); }
+    if (!blocks.insert(s.str).second) { snprintf(d, sizeof d, "%c.%s shares its buffer with another stored string", ON[o], what); return bad("alloc-failure:strings-share-memory", d); }
+    return {};
+}
+static Verdict weak_compare(const World& w)
+{
+    std::set<const void*> blocks;
+    for (int o = 0; o < 3; ++o) {
+        if (w.pristine[o]) continue;
+        const StorageProperties& p = w.impl[o];
+        struct { const char* n; const String* s; } S[] = { { "uri", &p.uri }, { "external_metadata_json", &p.external_metadata_json }, { "access_key_id", &p.access_key_id }, { "secret_access_key", &p.secret_access_key } };
+        for (auto& x : S) { Verdict v = weak_string(x.n, o, *x.s, blocks); if (!v.ok) return v; }
+        if (p.acquisition_dimensions.size) {
+            char d[200];
+            auto it = LEDGER.find((void*)p.acquisition_dimensions.data);
+            if (!p.acquisition_dimensions.data || it == LEDGER.end() || !it->second.live || it->second.n < p.acquisition_dimensions.size * sizeof(StorageDimension)) {
+                snprintf(d, sizeof d, "%c records %zu dimensions but its array is not a live allocation of that size", ON[o], p.acquisition_dimensions.size); return bad("alloc-failure:dimensions-not-owned", d); }
+            if (!blocks.insert(p.acquisition_dimensions.data).second) return bad("alloc-failure:dimensions-share-memory", "two objects share a dimension array");
+            for (size_t i = 0; i < p.acquisition_dimensions.size; ++i) { char nm[32]; snprintf(nm, sizeof nm, "dim[%zu].name", i); Verdict v = weak_string(nm, o, p.acquisition_dimensions.data[i].name, blocks); if (!v.ok) return v; }
+        }
+    }
+    if (!g_ledger_err.empty()) return bad("alloc-failure:allocation-discipline", g_ledger_err);
+    return {};
+}
+static void call_only(World& w, Op op)
+{
+    StorageProperties* p = &w.impl[op.o];
+    switch (op.k) {
+        case INIT: { PixelScale ps = { 0.5 + op.o, 2.0 }; storage_properties_init(p, 7 + op.o, URIS[op.a].p, URIS[op.a].n, METAS[op.b].p, METAS[op.b].n, ps, op.c); break; }
+        case SET_URI: storage_properties_set_uri(p, URIS[op.a].p, URIS[op.a].n); break;
+        case SET_META: storage_properties_set_external_metadata(p, METAS[op.a].p, METAS[op.a].n); break;
+        case SET_KEYS: { const char* k = KEYS[op.a][0]; const char* s2 = KEYS[op.a][1]; storage_properties_set_access_key_and_secret(p, k, strlen(k) + 1, s2, strlen(s2) + 1); break; }
+        case SET_DIM: storage_properties_set_dimension(p, (int)(int8_t)op.a, NAMES[op.b].p, NAMES[op.b].n, (DimensionType)op.c, 10 + op.a, 5, 2); break;
+        case SET_MS: storage_properties_set_enable_multiscale(p, op.a); break;
+        case COPY: storage_properties_copy(p, &w.impl[op.a]); break;
+        case DESTROY: storage_properties_destroy(p); break;
+    }
+    if (op.k == DESTROY) w.pristine[op.o] = true; else w.pristine[op.o] = false;
+}
+static Verdict finalize(World& w);
+// the world holds the replayed history; the last call is made with its k-th allocation request failing
+static Verdict apply_with_alloc_failure(World& w, Op op, long k, bool* took_place)
+{
+    g_alloc_calls = 0; g_fail_at = k; g_alloc_failed = false;
+    g_guard = 1;
+    int sig = sigsetjmp(g_crash_jmp, 1);
+    if (sig) { g_guard = 0; g_fail_at = -1; *took_place = true; char d[128]; snprintf(d, sizeof d, "signal %d inside %s when its allocation request #%ld fails", sig, op_str(op).c_str(), k); return bad("alloc-failure:crash", d); }
+    g_track = true; call_only(w, op); g_track = false;
+    g_guard = 0; g_fail_at = -1;
+    *took_place = g_alloc_failed;
+    if (!g_alloc_failed) return {};
+    Verdict v = weak_compare(w);
+    if (!v.ok) return v;
+    g_track = true; v = finalize(w); g_track = false;
+    if (!v.ok) v.clause = "alloc-failure:" + v.clause;
+    return v;
+}
+
 static void world_init(World& w)
 {
     memset(&w.impl, 0, sizeof w.impl);
@@ -362,11 +439,12 @@ static Verdict run_history(const std::vector<Op>& h, World& w, bool fin, size_t*
 
 int main(int argc, char** argv)
 {
-    int depth = 3, nobj = 3; std::string out, replay; size_t max_states = 4000000; double deadline = 0;
+    int depth = 3, nobj = 3, alloc_depth = 3; std::string out, replay; size_t max_states = 4000000; double deadline = 0; uint64_t alloc_fault_runs = 0;
     for (int i = 1; i < argc; ++i) {
         std::string a = argv[i];
         if (a == "--depth") depth = atoi(argv[++i]);
         else if (a == "--objects") nobj = atoi(argv[++i]);
+        else if (a == "--alloc-depth") alloc_depth = atoi(argv[++i]);
         else if (a == "--out") out = argv[++i];
         else if (a == "--replay") replay = argv[++i];
         else if (a == "--max-states") max_states = strtoull(argv[++i], 0, 10);
@@ -381,6 +459,8 @@ int main(int argc, char** argv)
     if (!replay.empty()) {
         std::vector<Op> h;
         size_t p = 0;
+        long fail_k = -1;
+        { size_t ex = replay.rfind('!'); if (ex != std::string::npos) { fail_k = atol(replay.c_str() + ex + 1); replay.erase(ex); } }
         while (p < replay.size()) {
             size_t q = replay.find(';', p); if (q == std::string::npos) q = replay.size();
             std::string tok = replay.substr(p, q - p); p = q + 1;
@@ -389,6 +469,17 @@ int main(int argc, char** argv)
             if (!found) { fprintf(stderr, "unknown op '%s'\n", tok.c_str()); return 2; }
         }
         World w; size_t at = 0;
+        if (fail_k >= 0 && !h.empty()) {
+            Op last = h.back(); h.pop_back();
+            Verdict v = run_history(h, w, false, &at);
+            bool took = false;
+            if (v.ok) v = apply_with_alloc_failure(w, last, fail_k, &took);
+            for (size_t i = 0; i < h.size(); ++i) printf("%2zu %s\n", i + 1, op_str(h[i]).c_str());
+            printf("%2zu %s   [allocation request #%ld of this call fails%s]\n", h.size() + 1, op_str(last).c_str(), fail_k, took ? "" : ": no such request"); 
+            if (v.ok) { printf("RESULT ok\n"); return 0; }
+            printf("RESULT VIOLATION C13:%s: %s\n", v.clause.c_str(), v.detail.c_str());
+            return 1;
+        }
         Verdict v = run_history(h, w, true, &at);
         for (size_t i = 0; i < h.size(); ++i) printf("%2zu %s\n", i + 1, op_str(h[i]).c_str());
         if (v.ok) { printf("RESULT ok\n"); return 0; }
@@ -436,6 +527,21 @@ int main(int argc, char** argv)
                     if (!e.count) { e.clause = v.clause; e.detail = v.detail; e.ops = hist_str(h2); }
                     ++e.count;
                 }
+                // the same call with each of its allocation requests failing in turn (histories up to alloc_depth calls)
+                if (v.ok && d < alloc_depth && op.k != SET_MS && op.k != DESTROY)
+                    for (long k = 0; k < 64; ++k) {
+                        World wf;
+                        if (!run_history(h, wf, false).ok) break;
+                        bool took = false;
+                        Verdict vf = apply_with_alloc_failure(wf, op, k, &took);
+                        if (!took) break;
+                        ++alloc_fault_runs;
+                        if (!vf.ok) {
+                            auto& e = viols[vf.clause];
+                            if (!e.count) { e.clause = vf.clause; e.detail = vf.detail; e.ops = hist_str(h2) + "!" + std::to_string(k); }
+                            ++e.count;
+                        }
+                    }
             }
             if (capped) break;
         }
@@ -444,8 +550,8 @@ int main(int argc, char** argv)
     double wall = std::chrono::duration<double>(std::chrono::steady_clock::now() - t0).count();
     FILE* f = out.empty() ? stdout : fopen(out.c_str(), "w");
     auto esc = [](const std::string& s) { std::string o; for (char c : s) { if (c == '"' || c == '\\') o += '\\'; o += c; } return o; };
-    fprintf(f, "{\"depth\":%d,\"objects\":%d,\"alphabet\":%zu,\"states\":%llu,\"transitions\":%llu,\"final_state_checks\":%llu,\"copies\":%llu,\"copies_from_source_with_dimensions\":%llu,\"destroys\":%llu,\"exhaustive\":%s,\"wall_s\":%.3f,\"samples\":[",
-            depth, nobj, ALPHA.size(), (unsigned long long)states, (unsigned long long)transitions, (unsigned long long)finals, (unsigned long long)copies, (unsigned long long)copies_with_dims, (unsigned long long)destroys, capped ? "false" : "true", wall);
+    fprintf(f, "{\"runs_with_an_allocation_failure\":%llu,\"depth\":%d,\"objects\":%d,\"alphabet\":%zu,\"states\":%llu,\"transitions\":%llu,\"final_state_checks\":%llu,\"copies\":%llu,\"copies_from_source_with_dimensions\":%llu,\"destroys\":%llu,\"exhaustive\":%s,\"wall_s\":%.3f,\"samples\":[",
+            (unsigned long long)alloc_fault_runs, depth, nobj, ALPHA.size(), (unsigned long long)states, (unsigned long long)transitions, (unsigned long long)finals, (unsigned long long)copies, (unsigned long long)copies_with_dims, (unsigned long long)destroys, capped ? "false" : "true", wall);
     for (size_t i = 0; i < samples.size(); ++i) fprintf(f, "%s\"%s\"", i ? "," : "", esc(samples[i]).c_str());
     fprintf(f, "],\"violations\":[");
     bool first = true;
